@@ -43,7 +43,13 @@ MANIFEST = {
             'bin_kppi_counts, edge_reads_in_bounds); the per-bin sums of the mesh value are the multiplicity-weighted sums over '
             'exactly those half-mesh modes and equal the full-mesh sums of the Hermitian extension (bin_means); results are equal for '
             'all schedules (thread_independent); the l = 0 pole is the mode-weighted mu-average of the wedges '
-            '(pole0_is_mu_average); P_n is the Legendre polynomial for l in {0,2,..,10} (P_n_is_legendre).  The theorems are about a '
+            '(pole0_is_mu_average); P_n is the Legendre polynomial for l in {0,2,..,10} (P_n_is_legendre) and, for the odd orders 1..9 that '
+            '`poles` may contain, P_l(|mu|) (P_n_odd_is_legendre, P_n_mu_even); the factorial table, the guard of `factorial`, n_choose_k '
+            'and the loop of P_n are regenerated and proved to yield term by term the transcription those theorems are about '
+            '(factorial_table_correct, n_choose_k_is_binomial, P_n_terms_regenerated); the per-thread accumulators have a slab for '
+            'every thread id the prange loop can produce whatever numba thread count is in force on entry (accumulators_cover_threads, '
+            'about the regenerated order of set_num_threads / get_num_threads / allocation / loop), and the generator checks that the '
+            'mode counts are accumulated in int64.  The theorems are about a '
             'hand-written loop model instantiated with the expressions, comparison directions, loop exits and statement order that '
             'tools/gen/c08.py regenerates from power_spectrum.py on every run; the model is run (vm_compute) against the compiled '
             'kernels, plain and under NUMBA_BOUNDSCHECK=1, and the kernels are judged by a brute-force full-mesh oracle.',
